@@ -374,6 +374,42 @@ def ite(c, a, b):
 # --------------------------------------------------------------------------------------------------
 # arrays
 
+def select(arr, idx):
+    """Select with eager beta-reduction when the array term is a lambda"""
+    if z3.is_quantifier(arr) and arr.is_lambda() and arr.num_vars() == len(idx):
+        return z3.substitute_vars(arr.body(), *reversed(list(idx)))
+    return z3.Select(arr, *idx)
+
+
+_CANON = {}
+
+
+def canon_lambda(vs, body):
+    """Lambda with canonical bound-variable names, so that structurally equal lambdas are the same z3 term"""
+    cs = []
+    for k, v in enumerate(vs):
+        key = (k, v.sort().name())
+        c = _CANON.get(key)
+        if c is None:
+            c = _CANON[key] = z3.Const("b#%d%s" % (k, v.sort().name()[0]), v.sort())
+        cs.append(c)
+    body = z3.substitute(body, *list(zip(vs, cs)))
+    return z3.Lambda(cs, body)
+
+
+def canon_quant(vs, body, exists=False):
+    """ForAll/Exists with canonical bound-variable names (alpha-equivalent clauses become identical terms)"""
+    cs = []
+    for k, v in enumerate(vs):
+        key = ("q", k, v.sort().name())
+        c = _CANON.get(key)
+        if c is None:
+            c = _CANON[key] = z3.Const("q#%d%s" % (k, v.sort().name()[0]), v.sort())
+        cs.append(c)
+    body = z3.substitute(body, *list(zip(vs, cs)))
+    return z3.Exists(cs, body) if exists else z3.ForAll(cs, body)
+
+
 def _elem_sort(dtype):
     return z3.IntSort() if dtype == "int" else z3.BoolSort() if dtype == "bool" else z3.RealSort()
 
@@ -413,9 +449,9 @@ class SymArr:
         idx = [z3int(i) for i in idx]
         if self.rank == 0:
             raise Unsupported("rank-0 array")
-        r = z3.Select(self.re, *idx)
+        r = select(self.re, idx)
         if self.dtype == "cx":
-            return Cx(r, z3.Select(self.im, *idx))
+            return Cx(r, select(self.im, idx))
         return r
 
     def set(self, idx, v, guard=True):
@@ -456,14 +492,14 @@ class SymArr:
             new = ite(cond, new, old)
         if self.dtype == "cx":
             new = Cx.of(new)
-            self.re = z3.Lambda(xs, z3real(new.re))
-            self.im = z3.Lambda(xs, z3real(new.im))
+            self.re = canon_lambda(xs, z3real(new.re))
+            self.im = canon_lambda(xs, z3real(new.im))
         elif self.dtype == "int":
-            self.re = z3.Lambda(xs, z3int(new))
+            self.re = canon_lambda(xs, z3int(new))
         else:
             if isinstance(new, Cx):
                 new = new.re
-            self.re = z3.Lambda(xs, z3real(_num(new)))
+            self.re = canon_lambda(xs, z3real(_num(new)))
 
     def terms(self):
         """materialise (re, im) array terms (for views: lambdas)"""
@@ -472,8 +508,8 @@ class SymArr:
         xs = [fresh("x", z3.IntSort()) for _ in range(self.rank)]
         v = self.get(xs)
         if self.dtype == "cx":
-            return z3.Lambda(xs, z3real(v.re)), z3.Lambda(xs, z3real(v.im))
-        return z3.Lambda(xs, v), None
+            return canon_lambda(xs, z3real(v.re)), canon_lambda(xs, z3real(v.im))
+        return canon_lambda(xs, v), None
 
     def snapshot(self):
         """immutable copy of the current contents (numpy .copy())"""
@@ -493,14 +529,14 @@ def lam_array(shape, dtype, fn, name=None):
     v = fn(xs)
     if dtype == "cx":
         v = Cx.of(v)
-        return SymArr(shape, "cx", re=z3.Lambda(xs, z3real(v.re)), im=z3.Lambda(xs, z3real(v.im)), name=name)
+        return SymArr(shape, "cx", re=canon_lambda(xs, z3real(v.re)), im=canon_lambda(xs, z3real(v.im)), name=name)
     if dtype == "int":
-        return SymArr(shape, "int", re=z3.Lambda(xs, z3int(v)), name=name)
+        return SymArr(shape, "int", re=canon_lambda(xs, z3int(v)), name=name)
     if dtype == "bool":
-        return SymArr(shape, "bool", re=z3.Lambda(xs, z3bool(v)), name=name)
+        return SymArr(shape, "bool", re=canon_lambda(xs, z3bool(v)), name=name)
     if isinstance(v, Cx):
         v = v.re
-    return SymArr(shape, "real", re=z3.Lambda(xs, z3real(_num(v))), name=name)
+    return SymArr(shape, "real", re=canon_lambda(xs, z3real(_num(v))), name=name)
 
 
 def join_dtype(a, b):
@@ -556,8 +592,8 @@ class SymList:
     def get(self, i):
         i = z3int(i)
         if self.width is None:
-            return z3.Select(self.comps[0], i)
-        return [z3.Select(c, i) for c in self.comps]
+            return select(self.comps[0], [i])
+        return [select(c, [i]) for c in self.comps]
 
     def set(self, i, v, guard=True):
         i = z3int(i)
